@@ -414,10 +414,19 @@ impl<'tcx> Cx<'tcx> {
             ]),
             Rvalue::Discriminant(p) => {
                 let pty = p.ty(&body.local_decls, tcx).ty;
+                let mut variants = Vec::new();
+                if let ty::Adt(def, _) = pty.kind() {
+                    if def.is_enum() {
+                        for (vi, d) in def.discriminants(tcx) {
+                            variants.push(jarr([js(&format!("{}", d.val)), js(&def.variant(vi).name.to_string())]));
+                        }
+                    }
+                }
                 jobj(&[
                     ("k", js("discr")),
                     ("p", self.place(body, *p)),
                     ("adt", jopt(self.ty_adt(pty))),
+                    ("variants", jarr(variants)),
                 ])
             }
             Rvalue::Aggregate(ak, ops) => {
